@@ -89,6 +89,8 @@ def zoo():
   r3 = [([1.0, nan, 2.0],), ([3.0, 4.0, nan],), ([nan, 6.0, 8.0],), ([7.0, nan, nan],), ([9.0, 10.0, 11.0],)]
   z.append(_mergeable('Mean-2d-uneven-nan', rs.Mean, r3, lambda a: _norm([a.count, a.result()])))
   z.append(_mergeable('Var-2d-uneven-nan', rs.Var, r3, lambda a: _norm(a.result())))
+  z.append(_mergeable('MinMaxAndCount-with-NaN', rs.MinMaxAndCount, [(3.0,), (float('nan'),), (1.0,), (7.0,), (5.0,)],
+                      lambda a: _norm((a.min, a.max, a.count))))
   z.append(_mergeable('MinMaxAndCount', rs.MinMaxAndCount, [(3,), (1,), (2,), (9,), (4,)],
                       lambda a: _norm([a.result().min, a.result().max, a.result().count]) if a.result().count else None))
   yb = [(1, 0.9), (0, 0.2), (1, 0.6), (0, 0.4), (1, 0.7), (0, 0.1)]
@@ -111,6 +113,9 @@ def zoo():
   texts = [('a b a c',), ('b b d',), ('a c',), ('d a b',)]
   z.append(_mergeable('TopKWordNGrams', lambda: tx.TopKWordNGrams(k=3, n=1), texts, lambda a: _norm(a.result()), as_array=False))
   z.append(_mergeable('PatternFrequency', lambda: tx.PatternFrequency(patterns=['a', 'd']), texts, lambda a: _norm(a.result()), as_array=False))
+  # texts shorter than n words contribute to the count (the denominator) but to no n-gram
+  short = [('the cat sat',), ('hi',), ('the cat ran',), ('yo',), ('ok',)]
+  z.append(_mergeable('TopKWordNGrams-2gram-with-short-texts', lambda: tx.TopKWordNGrams(k=4, n=2), short, lambda a: _norm(a.result()), as_array=False))
   shared = [('the cat sat',), ('the cat ran',), ('a dog sat',), ('the cat sat',), ('a dog ran',)]
   for cd in (True, False):
     z.append(_mergeable(f'TopKWordNGrams-2gram-count_duplicate={cd}', lambda cd=cd: tx.TopKWordNGrams(k=4, n=2, count_duplicate=cd), shared, lambda a: _norm(a.result()), as_array=False))
